@@ -239,9 +239,13 @@ func credentialIsSecure(credential string) error {
 		secureSignatureCount++
 	}
 
-	// Accept messages containing secure signatures
-	if secureSignatureCount > 0 {
+	// Accept messages containing exactly one (secure) signature. A JSON-serialized JWS can carry several signatures,
+	// of which only one would need to verify against an authorized key; the others (and their headers) would not be checked.
+	if secureSignatureCount == 1 {
 		return nil
+	}
+	if secureSignatureCount > 1 {
+		return errors.New("credential must contain exactly one signature")
 	}
 
 	// By default this method rejects messages
